@@ -86,10 +86,10 @@ Four hundred and forty changes, twenty-two per property, in eleven rounds.  Each
 only the text of one property and a scratch worktree (nothing from /verif), was asked for a
 plausible maintainer edit that needs something specific to manifest, and was confirmed by hand in
 a scratch worktree: applies to HEAD, builds, the whole existing suite passes, the demonstration
-fails with the change and passes without it (the demonstrations of C15-4, C15-6 and C15-8 need `-race`; five patches of earlier rounds that touch `nativeMapToObject` were rebased onto fix `7308254`, four of them and one of round 6 again onto fix `20fdb84`, and confirmed again).  They are kept
+fails with the change and passes without it (the demonstrations of C15-4, C15-6, C15-8 and C15-14 need `-race`; five patches of earlier rounds that touch `nativeMapToObject` were rebased onto fix `7308254`, four of them and one of round 6 again onto fix `20fdb84`, and confirmed again).  They are kept
 under `/verif/seeded/<id>/` (`patch.diff`, `demo_test.go`, `notes.md`, `meta.json`).  Each was
 applied to /repo (`git -C /repo apply`), the quick check of its property run, and the tree
-restored (`git -C /repo checkout -- .`).
+restored (`git -C /repo checkout -- .`, and `git clean` for the five changes that add files).  After round 11 the quick checks were run once more against the changes of rounds 1 to 5 with everything that had been added since (all 200 of them; those of the later rounds had been run last when their round was filed): every one of them is still reported, with a concrete failing input.
 
 Round 1 (ids `-1`, `-2`): 39 of 40 caught at once; **C19-2** was missed.  Round 2 (ids `-3`, `-4`),
 written after the checks had been tuned on round 1: 27 of 40 caught at once with a concrete failing
@@ -229,7 +229,7 @@ What was added for the ones not caught (or caught without an input) at first:
   same tree from two token lists that differ in positions only is shown on the printer's image.
 * C03: the passes of a loop are computed for bodies of text and plain variables; for other bodies they
   are hypotheses of the relational description.
-* C05: interleavings of text with code blocks other than `{{ name }}` and with directives as one theorem: the end-to-end theorems are per family (text with comments and prints; with `@if`/`@else`; with `@elseif` chains; with `@each`; a page with its layout; a page with its components; `{{{{ k.f }}}}`), each closed under repetition but not under nesting into one another; inside chains the texts exclude "{{", "@" and backslash, string literals in directive arguments exclude their own quote and the backslash.
+* C05: interleavings of text with code blocks other than `{{ name }}` and with directives as one theorem: the end-to-end theorems are per family (text with comments and prints; with `@if`/`@else`; with `@elseif` chains; with `@each`; a page with its layout; a page with its components; single `{{{{ … }}}}` blocks of one expression shape each — `k.f`, `k[d]`, `k[d].f`, `k.fn()`, `k.fn(d)`, `k.fn("s")`, `d`, `-d`, `(d)`, `a op b`, `a op1 b op2 d`, `a op1 (b op2 d)`, `k ? a : b`, `k ? a : j ? b : d`, `"a" + 'b'`, `n = d`, `n = a op b` followed by `n` — that stand alone, without text around them; `text_code_text` places any one-statement block between two runs of text and is instantiated for `k.f`, `k[d]`, `k.fn()` and `a op b`), each closed under repetition but not under nesting into one another; inside chains the texts exclude "{{", "@" and backslash, string literals in directive arguments exclude their own quote and the backslash.
 * C11: numeric conversions against a real-number specification.
 * the evaluator's fuel is a constant (10^5): theorems about whole renders carry a size bound.
 '''
